@@ -111,7 +111,11 @@ def conform(states, layers, mods, regexes, depth, res):
         res.stats["tla:states"] += 1
         if not ok:
             continue
-        got, exp = observe(obj), expected_observable(s["defs"])
+        try:
+            got = observe(obj)
+        except Exception as e:  # noqa: BLE001
+            got = {"reading the accepted definition raised": f"{type(e).__name__}: {e}"}
+        exp = expected_observable(s["defs"])
         if got != exp:
             res.violation("accepted-definition-differs-from-model", {"part": "tla", "history": hist}, exp, got)
             continue
